@@ -2,7 +2,11 @@
 //! scenario scripts against the real `tiny_std::thread::spawn` / `JoinHandle::join` / `Drop`.
 //!
 //! Script (stdin), one batch = the threads that are live together:
-//!   t <id> <ret|panic> <d_us> <class> <join|drop|dropnow> <d2_us>      (id < 64, class 0..5)
+//!   t <id> <ret|panic> <d_us> <class> <join|drop|dropnow> <d2_us>      (id < 64, class 0..12)
+//! Result classes: 0 (), 1 u8, 2 u64, 3 [u8;4096], 4 align-64 struct, 5 Box<[u64;3]> (size / alignment / ownership
+//! sweep) and 6 bool, 7 char, 8 core::cmp::Ordering, 9 field-less enum, 10 Option<u32>, 11 Result<u8,u8>,
+//! 12 struct(bool) with a counting destructor: types whose `Option<T>::None` is a NON-zero bit pattern, so that a
+//! result slot that was only zeroed (not initialised to `None`) shows as `Some(..)` for a thread that panicked.
 //!   go                                                                  run the batch collected so far
 //! Per batch the main thread: measures a baseline, spawns every thread in script order (`dropnow` handles
 //! are dropped right after their spawn), then walks the handles in script order (sleep d2, join | drop),
@@ -324,6 +328,102 @@ impl Val for alloc::boxed::Box<[u64; 3]> {
     }
 }
 
+impl Val for bool {
+    fn make(t: u64) -> Self {
+        (t >> 1) & 1 == 1
+    }
+    fn digest(&self) -> u64 {
+        *self as u64
+    }
+}
+impl Val for char {
+    fn make(t: u64) -> Self {
+        char::from_u32(((t >> 1) % 0xD800) as u32).unwrap_or('?')
+    }
+    fn digest(&self) -> u64 {
+        *self as u64
+    }
+}
+impl Val for core::cmp::Ordering {
+    fn make(t: u64) -> Self {
+        match (t >> 1) % 3 {
+            0 => core::cmp::Ordering::Less,
+            1 => core::cmp::Ordering::Equal,
+            _ => core::cmp::Ordering::Greater,
+        }
+    }
+    fn digest(&self) -> u64 {
+        (*self as i8 + 1) as u64
+    }
+}
+#[derive(Clone, Copy)]
+enum Colour {
+    Red,
+    Green,
+    Blue,
+}
+impl Val for Colour {
+    fn make(t: u64) -> Self {
+        match (t >> 1) % 3 {
+            0 => Colour::Red,
+            1 => Colour::Green,
+            _ => Colour::Blue,
+        }
+    }
+    fn digest(&self) -> u64 {
+        *self as u64
+    }
+}
+impl Val for Option<u32> {
+    fn make(t: u64) -> Self {
+        if (t >> 1) % 3 == 0 {
+            None
+        } else {
+            Some((t >> 8) as u32)
+        }
+    }
+    fn digest(&self) -> u64 {
+        match self {
+            None => 0,
+            Some(v) => 1 + *v as u64,
+        }
+    }
+}
+impl Val for Result<u8, u8> {
+    fn make(t: u64) -> Self {
+        if (t >> 1) & 1 == 1 {
+            Ok((t >> 8) as u8)
+        } else {
+            Err((t >> 8) as u8)
+        }
+    }
+    fn digest(&self) -> u64 {
+        match self {
+            Ok(v) => 0x100 | *v as u64,
+            Err(v) => *v as u64,
+        }
+    }
+}
+/// every value of this type that is made is counted, and so is every run of its destructor: the two counts must
+/// agree once a batch is over (joined values are dropped by the joiner, unread ones by whoever frees the slot)
+static MADE: AtomicU32 = AtomicU32::new(0);
+static DROPPED: AtomicU32 = AtomicU32::new(0);
+struct Flagged(bool);
+impl Drop for Flagged {
+    fn drop(&mut self) {
+        DROPPED.fetch_add(1, Ordering::Relaxed);
+    }
+}
+impl Val for Flagged {
+    fn make(t: u64) -> Self {
+        MADE.fetch_add(1, Ordering::Relaxed);
+        Flagged((t >> 1) & 1 == 1)
+    }
+    fn digest(&self) -> u64 {
+        self.0 as u64
+    }
+}
+
 enum Handle {
     C0(JoinHandle<()>),
     C1(JoinHandle<u8>),
@@ -331,6 +431,13 @@ enum Handle {
     C3(JoinHandle<[u8; 4096]>),
     C4(JoinHandle<A64>),
     C5(JoinHandle<alloc::boxed::Box<[u64; 3]>>),
+    C6(JoinHandle<bool>),
+    C7(JoinHandle<char>),
+    C8(JoinHandle<core::cmp::Ordering>),
+    C9(JoinHandle<Colour>),
+    C10(JoinHandle<Option<u32>>),
+    C11(JoinHandle<Result<u8, u8>>),
+    C12(JoinHandle<Flagged>),
 }
 
 const MAXT: usize = 64;
@@ -393,7 +500,14 @@ fn spawn_spec(batch: usize, sp: &Spec) -> Result<Handle, u64> {
         2 => spawn_one::<u64>(batch, sp.id, sp.panics, sp.d).map(Handle::C2),
         3 => spawn_one::<[u8; 4096]>(batch, sp.id, sp.panics, sp.d).map(Handle::C3),
         4 => spawn_one::<A64>(batch, sp.id, sp.panics, sp.d).map(Handle::C4),
-        _ => spawn_one::<alloc::boxed::Box<[u64; 3]>>(batch, sp.id, sp.panics, sp.d).map(Handle::C5),
+        5 => spawn_one::<alloc::boxed::Box<[u64; 3]>>(batch, sp.id, sp.panics, sp.d).map(Handle::C5),
+        6 => spawn_one::<bool>(batch, sp.id, sp.panics, sp.d).map(Handle::C6),
+        7 => spawn_one::<char>(batch, sp.id, sp.panics, sp.d).map(Handle::C7),
+        8 => spawn_one::<core::cmp::Ordering>(batch, sp.id, sp.panics, sp.d).map(Handle::C8),
+        9 => spawn_one::<Colour>(batch, sp.id, sp.panics, sp.d).map(Handle::C9),
+        10 => spawn_one::<Option<u32>>(batch, sp.id, sp.panics, sp.d).map(Handle::C10),
+        11 => spawn_one::<Result<u8, u8>>(batch, sp.id, sp.panics, sp.d).map(Handle::C11),
+        _ => spawn_one::<Flagged>(batch, sp.id, sp.panics, sp.d).map(Handle::C12),
     };
     r.map_err(|e| errno_of(&e))
 }
@@ -421,6 +535,8 @@ fn run_batch(batch: usize, specs: &[Spec]) {
     num(batch as u64);
     num(specs.len() as u64);
     s("\n");
+    MADE.store(0, Ordering::Relaxed);
+    DROPPED.store(0, Ordering::Relaxed);
     measure("before");
     HEAP_LOG.store(1, Ordering::Relaxed);
     mark(b'b', batch, specs.len());
@@ -468,6 +584,13 @@ fn run_batch(batch: usize, specs: &[Spec]) {
                 Handle::C3(h) => join_one(h),
                 Handle::C4(h) => join_one(h),
                 Handle::C5(h) => join_one(h),
+                Handle::C6(h) => join_one(h),
+                Handle::C7(h) => join_one(h),
+                Handle::C8(h) => join_one(h),
+                Handle::C9(h) => join_one(h),
+                Handle::C10(h) => join_one(h),
+                Handle::C11(h) => join_one(h),
+                Handle::C12(h) => join_one(h),
             };
             // the closure's plain write, read after join returned
             let eff = unsafe { EFFECT.0[sp.id].get().read_volatile() };
@@ -516,6 +639,11 @@ fn run_batch(batch: usize, specs: &[Spec]) {
         num((unsafe { EFFECT.0[sp.id].get().read_volatile() } == token(batch, sp.id)) as u64);
         s("\n");
     }
+    // values with a destructor: made by the closures of this batch / destructor runs in this batch
+    s("drops");
+    num(MADE.load(Ordering::Relaxed) as u64);
+    num(DROPPED.load(Ordering::Relaxed) as u64);
+    s("\n");
     s("end");
     num(batch as u64);
     s("\n");
@@ -539,6 +667,13 @@ fn class_sizes() {
     c!(3, [u8; 4096]);
     c!(4, A64);
     c!(5, alloc::boxed::Box<[u64; 3]>);
+    c!(6, bool);
+    c!(7, char);
+    c!(8, core::cmp::Ordering);
+    c!(9, Colour);
+    c!(10, Option<u32>);
+    c!(11, Result<u8, u8>);
+    c!(12, Flagged);
 }
 
 fn parse_usize(b: &[u8]) -> Option<usize> {
@@ -600,7 +735,7 @@ pub fn main() -> i32 {
                         _ => return None,
                     };
                     let d2 = parse_usize(f[5]?)?;
-                    if id >= MAXT || class > 5 || n >= MAXT {
+                    if id >= MAXT || class > 12 || n >= MAXT {
                         return None;
                     }
                     Some(Spec { id, panics, d, class, action, d2 })
